@@ -30,7 +30,7 @@ use std::process::{Command, Stdio};
 
 use serde_json::{Value, json};
 
-const VERIF: &str = "/verif";
+
 
 fn init_process() {
     assert!(mapwatch::selftest(), "MACHINERY: mmap/munmap/close interposer is not live");
@@ -48,7 +48,7 @@ fn init_process() {
 }
 
 fn scratch_dir() -> String {
-    let d = format!("{VERIF}/scratch");
+    let d = format!("{}/scratch", report::root());
     std::fs::create_dir_all(&d).unwrap();
     d
 }
@@ -120,7 +120,7 @@ struct Candidate {
 }
 
 fn replay_file(prop: &str, tier: &str, c: &Candidate) -> String {
-    let dir = format!("{VERIF}/replays");
+    let dir = format!("{}/replays", report::root());
     std::fs::create_dir_all(&dir).unwrap();
     let h = report::hash_str(&format!("{}{}{:?}", c.sig, c.harness_name, c.choices));
     let path = format!("{dir}/{prop}-{:08x}.json", h as u32);
@@ -377,7 +377,7 @@ fn check(prop: &str, tier: &str) -> i32 {
         states.extend(h_states);
     }
     // Triage candidates.
-    let known = report::load_known(&format!("{VERIF}/known_findings.txt"));
+    let known = report::load_known(&format!("{}/known_findings.txt", report::root()));
     let mut exit = 0;
     let mut known_seen = Vec::new();
     let mut violations = 0;
@@ -447,8 +447,8 @@ fn check(prop: &str, tier: &str) -> i32 {
         "wall_s": wall,
         "violations": violations,
     });
-    std::fs::create_dir_all(format!("{VERIF}/evidence")).unwrap();
-    report::write_json(&format!("{VERIF}/evidence/{prop}.json"), &ev);
+    std::fs::create_dir_all(format!("{}/evidence", report::root())).unwrap();
+    report::write_json(&format!("{}/evidence/{prop}.json", report::root()), &ev);
     println!(
         "{prop} {tier}: {} histories, {} transitions, {} distinct states, {} distinct observations, {:.1}s{}",
         total_exec,
